@@ -217,9 +217,446 @@ Proof.
   rewrite (map_nth PF keys zero x); reflexivity ].
 Qed.
 
-Theorem gen_selSPEA2_trunc_eq inds k L chosen :
+(* ---- the "archive too large" branch ---- *)
+Definition set2 {A} (D : list (list A)) (i j : nat) (v : A) : list (list A) := set_nth D i (set_nth (nth i D []) j v).
+Definition mat {A} (N : nat) (M : list (list A)) : Prop := length M = N /\ forall i, i < N -> length (nth i M []) = N.
+
+Lemma set2_mat {A} N (M : list (list A)) i j v : mat N M -> mat N (set2 M i j v).
+Proof.
+  intros [L R]. unfold set2. split; [now rewrite set_nth_length|]. intros p Hp.
+  destruct (Nat.eq_dec i p) as [->|Ne].
+  - rewrite nth_set_nth_same by lia. rewrite set_nth_length. now apply R.
+  - rewrite nth_set_nth_other by exact Ne. now apply R.
+Qed.
+
+Lemma nth2_set2 {A} N (M : list (list A)) i j v p q d : mat N M -> i < N -> j < N ->
+  nth q (nth p (set2 M i j v) []) d = if Nat.eqb p i && Nat.eqb q j then v else nth q (nth p M []) d.
+Proof.
+  intros [L R] Hi Hj. unfold set2.
+  destruct (Nat.eqb_spec p i) as [->|Ne]; cbn [andb].
+  - rewrite nth_set_nth_same by lia. destruct (Nat.eqb_spec q j) as [->|Nq].
+    + rewrite nth_set_nth_same; [reflexivity|rewrite R; lia].
+    + rewrite nth_set_nth_other by congruence. reflexivity.
+  - rewrite nth_set_nth_other by congruence. reflexivity.
+Qed.
+
+Lemma for_seq_inv {S} (P : nat -> S -> Prop) (f : nat -> S -> S) : forall n a s,
+  P a s -> (forall i s, a <= i < a + n -> P i s -> P (Datatypes.S i) (f i s)) -> P (a + n) (for_ (seq a n) f s).
+Proof.
+  induction n as [|n IH]; intros a s H0 Hs.
+  - rewrite Nat.add_0_r. exact H0.
+  - cbn [seq]. unfold for_ in *. cbn [fold_left]. replace (a + Datatypes.S n) with (Datatypes.S a + n) by lia.
+    apply IH; [apply Hs; [lia|exact H0]|]. intros i s' Hi. apply Hs. lia.
+Qed.
+
+Lemma mat_ext {A} N (M M' : list (list A)) d : mat N M -> mat N M' ->
+  (forall p q, p < N -> q < N -> nth q (nth p M []) d = nth q (nth p M' []) d) -> M = M'.
+Proof.
+  intros [L R] [L' R'] H. apply (nth_ext _ _ [] []); [congruence|]. intros p Hp. rewrite L in Hp.
+  apply (nth_ext _ _ d d); [rewrite R, R' by exact Hp; reflexivity|]. intros q Hq. rewrite R in Hq by exact Hp. now apply H.
+Qed.
+
+Ltac bdec := repeat match goal with
+  | |- context [Nat.eqb ?a ?b] =>
+      first [ replace (Nat.eqb a b) with true by (symmetry; apply Nat.eqb_eq; lia)
+            | replace (Nat.eqb a b) with false by (symmetry; apply Nat.eqb_neq; lia) ]
+  | |- context [Nat.ltb ?a ?b] =>
+      first [ replace (Nat.ltb a b) with true by (symmetry; apply Nat.ltb_lt; lia)
+            | replace (Nat.ltb a b) with false by (symmetry; apply Nat.ltb_ge; lia) ]
+  end; cbn [andb orb].
+Ltac cmp x y := destruct (lt_eq_lt_dec x y) as [[?|?]|?].
+Ltac bfin := bdec; rewrite ?andb_false_r, ?andb_true_r, ?orb_false_r, ?orb_true_r; try reflexivity;
+  repeat (match goal with |- context [if ?b then _ else _] => destruct b end); reflexivity.
+
+(* for i in range(N): for j in range(i+1, N): D[i][j] = D[j][i] = g i j;  D[i][i] = c *)
+Lemma sym_matrix_loop N (g : nat -> nat -> T) (c : T) (D0 : list (list T)) :
+  mat N D0 -> (forall p q, p < N -> q < N -> nth q (nth p D0 []) zero = zero) ->
+  let D := for_ (seq 0 N) (fun i D =>
+             set2 (for_ (seq (S i) (N - S i)) (fun j D => set2 (set2 D i j (g i j)) j i (g i j)) D) i i c) D0 in
+  mat N D /\ forall p q, p < N -> q < N ->
+    nth q (nth p D []) zero = if Nat.eqb p q then c else if Nat.ltb p q then g p q else g q p.
+Proof.
+  intros M0 Z0. cbv zeta.
+  set (F := fun p q => if Nat.eqb p q then c else if Nat.ltb p q then g p q else g q p).
+  set (P := fun (a : nat) (D : list (list T)) => mat N D /\ forall p q, p < N -> q < N ->
+              nth q (nth p D []) zero = if Nat.ltb p a || Nat.ltb q a then F p q else zero).
+  assert (G : P (0 + N) (for_ (seq 0 N) (fun i D =>
+             set2 (for_ (seq (S i) (N - S i)) (fun j D => set2 (set2 D i j (g i j)) j i (g i j)) D) i i c) D0)).
+  { apply for_seq_inv.
+    - split; [exact M0|]. intros p q Hp Hq. cbn. now apply Z0.
+    - intros i D Hi [MD HD].
+      set (Q := fun (b : nat) (D' : list (list T)) => mat N D' /\ forall p q, p < N -> q < N ->
+                  nth q (nth p D' []) zero =
+                  if Nat.ltb p i || Nat.ltb q i then F p q
+                  else if (Nat.eqb p i && Nat.ltb i q && Nat.ltb q b) || (Nat.eqb q i && Nat.ltb i p && Nat.ltb p b) then F p q
+                  else zero).
+      assert (GI : Q (S i + (N - S i)) (for_ (seq (S i) (N - S i)) (fun j D => set2 (set2 D i j (g i j)) j i (g i j)) D)).
+      { apply for_seq_inv.
+        - split; [exact MD|]. intros p q Hp Hq. rewrite HD by assumption.
+          cmp p i; cmp q i; subst; bdec; reflexivity.
+        - intros j D' Hj [MD' HD']. split; [now apply set2_mat, set2_mat|]. intros p q Hp Hq.
+          rewrite (nth2_set2 N) by (try apply set2_mat; try assumption; lia).
+          rewrite (nth2_set2 N) by (try assumption; lia). rewrite HD' by assumption. unfold F.
+          cmp p i; cmp q i; subst; try (cmp p j; subst); try (cmp q j; subst); try (exfalso; lia); bdec; reflexivity. }
+      destruct GI as [MI HI]. split; [now apply set2_mat|]. intros p q Hp Hq.
+      rewrite (nth2_set2 N) by (try assumption; lia). rewrite HI by assumption. unfold F.
+      cmp p i; cmp q i; subst; try (cmp p q; subst); try (exfalso; lia); bdec; reflexivity. }
+  destruct G as [MG HG]. split; [exact MG|]. intros p q Hp Hq. rewrite HG by assumption.
+  destruct (Nat.ltb_spec p (0 + N)); [reflexivity|lia].
+Qed.
+
+Lemma sym_matrix_loop_F N (g : nat -> nat -> T) (c : T) (D0 : list (list T)) (F : nat -> list (list T) -> list (list T)) :
+  (forall i D, F i D = set2 (for_ (seq (i + 1) (N - (i + 1))) (fun j D => set2 (set2 D i j (g i j)) j i (g i j)) D) i i c) ->
+  mat N D0 -> (forall p q, p < N -> q < N -> nth q (nth p D0 []) zero = zero) ->
+  mat N (for_ (seq 0 N) F D0) /\ forall p q, p < N -> q < N ->
+    nth q (nth p (for_ (seq 0 N) F D0) []) zero = if Nat.eqb p q then c else if Nat.ltb p q then g p q else g q p.
+Proof.
+  intros HF M0 Z0.
+  rewrite (for_ext (seq 0 N) F (fun i D => set2 (for_ (seq (S i) (N - S i)) (fun j D => set2 (set2 D i j (g i j)) j i (g i j)) D) i i c)).
+  - exact (sym_matrix_loop N g c D0 M0 Z0).
+  - intros i D _. rewrite HF, Nat.add_1_r. reflexivity.
+Qed.
+
+Lemma set_nth_nth_id {A} (l : list A) i d : i < length l -> set_nth l i (nth i l d) = l.
+Proof. revert i. induction l as [|x r IH]; intros i H; [cbn in H; lia|]. destruct i; cbn; [reflexivity|]. f_equal. apply IH. cbn in H. lia. Qed.
+
+Lemma ins_rev_len (drow : list T) j : forall rl, length (ins_rev Op drow j rl) = S (length rl).
+Proof. induction rl as [|e rl IH]; cbn; [reflexivity|]. destruct (n_ltb Op (nth j drow zero) (nth e drow zero)); cbn; [now rewrite IH|reflexivity]. Qed.
+
+(* m = j; while m > 0 and d[j] < d[row[m-1]]: row[m] = row[m-1]; m -= 1;  row[m] = j   on row i of SI:
+   one insertion step of the hand model on the reversed prefix; generic in the guard C and the step B *)
+Lemma ins_while (drow : list T) (j : nat) (SI0 : list (list nat)) (i : nat)
+      (C : list (list nat) * Z -> bool) (B : list (list nat) * Z -> list (list nat) * Z) :
+  i < length SI0 ->
+  (forall SI m, C (SI, m) = (0 <? m)%Z && n_ltb Op (nth j drow zero) (nth (nth (Z.to_nat (m - 1)) (nth i SI []) 0) drow zero)) ->
+  (forall SI m, B (SI, m) = (set_nth SI i (set_nth (nth i SI []) (Z.to_nat m) (nth (Z.to_nat (m - 1)) (nth i SI []) 0)), (m - 1)%Z)) ->
+  forall fuel s1 rl x zeros, length rl < fuel ->
+    let '(SI', m') := while_ fuel C B (set_nth SI0 i (rev rl ++ x :: rev s1 ++ zeros), Z.of_nat (length rl)) in
+    set_nth SI' i (set_nth (nth i SI' []) (Z.to_nat m') j) = set_nth SI0 i (rev (s1 ++ ins_rev Op drow j rl) ++ zeros).
+Proof.
+  intros Hi HC HB. induction fuel as [|f IH]; intros s1 rl x zeros Hf; [lia|].
+  cbn [while_]. rewrite HC. rewrite nth_set_nth_same by exact Hi.
+  destruct rl as [|e rest].
+  - cbn [length]. change (Z.of_nat 0) with 0%Z. rewrite Z.ltb_irrefl. cbn [andb]. rewrite nth_set_nth_same by exact Hi.
+    rewrite set_nth_set_nth. cbn [rev app ins_rev Z.to_nat set_nth]. rewrite rev_app_distr. reflexivity.
+  - cbn [length] in *. destruct (Z.ltb_spec 0 (Z.of_nat (S (length rest)))); [|lia]. cbn [andb].
+    replace (Z.to_nat (Z.of_nat (S (length rest)) - 1)) with (length rest) by lia.
+    cbn [rev]. rewrite <- app_assoc. cbn [app].
+    rewrite (app_nth2 (rev rest)) by (rewrite rev_length; lia). rewrite rev_length, Nat.sub_diag. cbn [nth].
+    cbn [ins_rev]. destruct (n_ltb Op (nth j drow zero) (nth e drow zero)).
+    + rewrite HB. rewrite nth_set_nth_same by exact Hi. rewrite set_nth_set_nth.
+      replace (Z.to_nat (Z.of_nat (S (length rest)) - 1)) with (length rest) by lia.
+      rewrite (app_nth2 (rev rest)) by (rewrite rev_length; lia). rewrite rev_length, Nat.sub_diag. cbn [nth].
+      rewrite Nat2Z.id.
+      change (rev rest ++ e :: x :: rev s1 ++ zeros) with (rev rest ++ [e] ++ x :: rev s1 ++ zeros).
+      rewrite app_assoc. rewrite (set_nth_app_mid (rev rest ++ [e])) by (rewrite app_length, rev_length; cbn; lia).
+      rewrite <- app_assoc. cbn [app].
+      replace (Z.of_nat (S (length rest)) - 1)%Z with (Z.of_nat (length rest)) by lia.
+      specialize (IH (s1 ++ [e]) rest e zeros ltac:(lia)).
+      rewrite rev_app_distr in IH. cbn [rev app] in IH.
+      destruct (while_ f C B (set_nth SI0 i (rev rest ++ e :: e :: rev s1 ++ zeros), Z.of_nat (length rest))) as [SI' m'].
+      rewrite IH. rewrite <- app_assoc. reflexivity.
+    + rewrite nth_set_nth_same by exact Hi. rewrite set_nth_set_nth. rewrite Nat2Z.id.
+      change (rev rest ++ e :: x :: rev s1 ++ zeros) with (rev rest ++ [e] ++ x :: rev s1 ++ zeros).
+      rewrite app_assoc. rewrite (set_nth_app_mid (rev rest ++ [e])) by (rewrite app_length, rev_length; cbn; lia).
+      rewrite rev_app_distr. cbn [rev]. rewrite <- !app_assoc. reflexivity.
+Qed.
+
+Lemma ins_step (drow : list T) (j : nat) (SI0 : list (list nat)) (i : nat)
+      (C : list (list nat) * Z -> bool) (B : list (list nat) * Z -> list (list nat) * Z) fuel rl N :
+  i < length SI0 ->
+  (forall SI m, C (SI, m) = (0 <? m)%Z && n_ltb Op (nth j drow zero) (nth (nth (Z.to_nat (m - 1)) (nth i SI []) 0) drow zero)) ->
+  (forall SI m, B (SI, m) = (set_nth SI i (set_nth (nth i SI []) (Z.to_nat m) (nth (Z.to_nat (m - 1)) (nth i SI []) 0)), (m - 1)%Z)) ->
+  length rl = j -> j < fuel -> j < N ->
+  (let '(SI', m') := while_ fuel C B (set_nth SI0 i (rev rl ++ repeat 0 (N - j)), Z.of_nat j) in
+   set_nth SI' i (set_nth (nth i SI' []) (Z.to_nat m') j))
+  = set_nth SI0 i (rev (ins_rev Op drow j rl) ++ repeat 0 (N - S j)).
+Proof.
+  intros Hi HC HB Hl Hf Hn. subst j.
+  replace (N - length rl) with (S (N - S (length rl))) by lia. cbn [repeat].
+  pose proof (ins_while drow (length rl) SI0 i C B Hi HC HB fuel [] rl 0 (repeat 0 (N - S (length rl))) Hf) as H.
+  cbn [rev app] in H.
+  destruct (while_ fuel C B (set_nth SI0 i (rev rl ++ 0 :: repeat 0 (N - S (length rl))), Z.of_nat (length rl))) as [SI' m'].
+  exact H.
+Qed.
+
+(* for j in range(1, N): <insert j into the sorted prefix of row i>   = the hand model's sorted_row *)
+Lemma sorted_row_loop (drow : list T) N (SI0 : list (list nat)) i (JB : nat -> list (list nat) -> list (list nat)) :
+  1 <= N -> i < length SI0 ->
+  (forall j rl, 1 <= j < N -> length rl = j ->
+     JB j (set_nth SI0 i (rev rl ++ repeat 0 (N - j))) = set_nth SI0 i (rev (ins_rev Op drow j rl) ++ repeat 0 (N - S j))) ->
+  nth i SI0 [] = repeat 0 N ->
+  for_ (seq 1 (N - 1)) JB SI0 = set_nth SI0 i (sorted_row Op drow N).
+Proof.
+  intros HN Hi HJ H0.
+  set (rlj := fun j => fold_left (fun rl j => ins_rev Op drow j rl) (seq 1 (j - 1)) [0]).
+  assert (G : (fun j SI => length (rlj j) = j /\ SI = set_nth SI0 i (rev (rlj j) ++ repeat 0 (N - j))) (1 + (N - 1)) (for_ (seq 1 (N - 1)) JB SI0)).
+  { apply for_seq_inv.
+    - split; [reflexivity|]. cbn [rlj Nat.sub seq fold_left rev app].
+      replace (0 :: repeat 0 (N - 1)) with (repeat 0 N) by (replace N with (S (N - 1)) at 1 by lia; reflexivity).
+      rewrite <- H0. symmetry. apply set_nth_nth_id. exact Hi.
+    - intros j SI Hj [Lr ->]. assert (E : rlj (S j) = ins_rev Op drow j (rlj j)).
+      { unfold rlj. replace (S j - 1) with (S (j - 1)) by lia. rewrite seq_S, fold_left_app. cbn [fold_left].
+        replace (1 + (j - 1)) with j by lia. reflexivity. }
+      split; [rewrite E, ins_rev_len; lia|]. rewrite E. apply HJ; [lia|exact Lr]. }
+  destruct G as [_ ->]. replace (1 + (N - 1)) with N by lia. rewrite Nat.sub_diag. cbn [repeat]. rewrite app_nil_r.
+  reflexivity.
+Qed.
+
+(* for i in range(N): <sort row i>  on sorted_indices = [[0] * N for i in range(N)] *)
+Lemma sorted_rows_loop N (D : list (list T)) (IB : nat -> list (list nat) -> list (list nat)) :
+  (forall i SI, i < N -> length SI = N -> nth i SI [] = repeat 0 N -> IB i SI = set_nth SI i (sorted_row Op (nth i D []) N)) ->
+  for_ (seq 0 N) IB (map (fun _ => repeat 0 N) (seq 0 N)) = tab N (fun i => sorted_row Op (nth i D []) N).
+Proof.
+  intro HI.
+  assert (G : (fun a SI => length SI = N /\ (forall p, p < a -> nth p SI [] = sorted_row Op (nth p D []) N)
+                           /\ (forall p, a <= p < N -> nth p SI [] = repeat 0 N)) (0 + N)
+              (for_ (seq 0 N) IB (map (fun _ => repeat 0 N) (seq 0 N)))).
+  { apply for_seq_inv.
+    - split; [now rewrite map_length, seq_length|]. split; [intros p Hp; lia|]. intros p Hp.
+      rewrite map_const_seq. rewrite (nth_indep _ [] (repeat 0 N)) by (rewrite repeat_length; lia). apply nth_repeat.
+    - intros i SI Hi [L [Hlo Hhi]]. rewrite HI; [|lia|exact L|apply Hhi; lia].
+      split; [now rewrite set_nth_length|]. split.
+      + intros p Hp. destruct (Nat.eq_dec i p) as [->|Ne]; [now rewrite nth_set_nth_same by lia|].
+        rewrite nth_set_nth_other by exact Ne. apply Hlo. lia.
+      + intros p Hp. rewrite nth_set_nth_other by lia. apply Hhi. lia. }
+  destruct G as [L [Hlo _]]. apply (nth_ext _ _ [] []); [now rewrite L, tab_length|].
+  intros p Hp. rewrite L in Hp. rewrite nth_tab by exact Hp. apply Hlo. lia.
+Qed.
+
+(* for j in range(1, size): if a < b: min_pos = i; break  elif a > b: break *)
+Lemma row_less_brk (js : list nat) (ri : nat -> T) (rm : nat -> nat -> T) i mp (F : nat -> nat -> ctl nat nat) :
+  (forall j mp', F j mp' = if n_ltb Op (ri j) (rm mp' j) then Ret i
+                           else if n_ltb Op (rm mp' j) (ri j) then Ret mp' else Next mp') ->
+  for_brk js F mp = if row_less Op js ri (rm mp) then i else mp.
+Proof.
+  intro HF. induction js as [|j js IH]; [reflexivity|]. cbn [for_brk row_less]. rewrite HF.
+  destruct (n_ltb Op (ri j) (rm mp j)); [reflexivity|]. destruct (n_ltb Op (rm mp j) (ri j)); [reflexivity|]. apply IH.
+Qed.
+
+Lemma for_pair_split {A S1 S2} (xs : list A) (f : A -> S1 -> S1) (g : A -> S2 -> S2) s1 s2 :
+  for_ xs (fun x st => (f x (fst st), g x (snd st))) (s1, s2) = (for_ xs f s1, for_ xs g s2).
+Proof. revert s1 s2. induction xs as [|x xs IH]; intros s1 s2; [reflexivity|]. unfold for_ in *. cbn [fold_left fst snd]. apply IH. Qed.
+
+(* for i in range(N): D[i][mp] = inf; D[mp][i] = inf *)
+Lemma inf_loop N (D : list (list T)) mp (inf : T) : mat N D -> mp < N ->
+  for_ (seq 0 N) (fun i D => set2 (set2 D i mp inf) mp i inf) D
+  = tab N (fun i => tab N (fun x => if Nat.eqb i mp || Nat.eqb x mp then inf else nth x (nth i D []) zero)).
+Proof.
+  intros MD Hmp.
+  assert (G : (fun a D' => mat N D' /\ forall p q, p < N -> q < N -> nth q (nth p D' []) zero =
+                 if (Nat.eqb p mp && Nat.ltb q a) || (Nat.eqb q mp && Nat.ltb p a) then inf else nth q (nth p D []) zero)
+              (0 + N) (for_ (seq 0 N) (fun i D => set2 (set2 D i mp inf) mp i inf) D)).
+  { apply for_seq_inv.
+    - split; [exact MD|]. intros p q Hp Hq. bdec. rewrite !andb_false_r. reflexivity.
+    - intros i D' Hi [MD' HD']. split; [now apply set2_mat, set2_mat|]. intros p q Hp Hq.
+      rewrite (nth2_set2 N) by (try apply set2_mat; try assumption; lia).
+      rewrite (nth2_set2 N) by (try assumption; lia). rewrite HD' by assumption.
+      cmp p mp; cmp q mp; cmp p i; cmp q i; subst; try (exfalso; lia); bfin. }
+  destruct G as [MG HG]. apply (mat_ext N _ _ zero MG).
+  - split; [apply tab_length|]. intros i Hi. rewrite nth_tab by exact Hi. apply tab_length.
+  - intros p q Hp Hq. rewrite HG by assumption. rewrite nth_tab by exact Hp. rewrite nth_tab by exact Hq.
+    cmp p mp; cmp q mp; subst; bfin.
+Qed.
+
+Lemma bubble_noop mp size : forall r a j, size - 1 <= j -> bubble mp size a r j = a :: r.
+Proof.
+  induction r as [|b r IH]; intros a j H; [reflexivity|]. cbn [bubble].
+  destruct (Nat.ltb_spec j (size - 1)); [lia|]. rewrite andb_false_r. cbn [andb]. f_equal. apply IH. lia.
+Qed.
+
+(* for j in range(j0, size-1): if row[j] == mp: row[j] = row[j+1]; row[j+1] = mp   = the hand model's bubble *)
+Lemma bubble_loop mp size (RS : nat -> list nat -> list nat) :
+  (forall j row, RS j row = if Nat.eqb (nth j row 0) mp then set_nth (set_nth row j (nth (j + 1) row 0)) (j + 1) mp else row) ->
+  forall n j0 pre a r, length pre = j0 -> 1 <= j0 -> j0 + n = Nat.max j0 (size - 1) -> j0 + n <= length pre + length r ->
+  for_ (seq j0 n) RS (pre ++ a :: r) = pre ++ bubble mp size a r j0.
+Proof.
+  intro HR. induction n as [|n IH]; intros j0 pre a r Lp Hj Hn Hlen.
+  - cbn. rewrite bubble_noop by lia. reflexivity.
+  - cbn [seq]. unfold for_ in *. cbn [fold_left]. rewrite HR.
+    destruct r as [|b r']; [cbn in Hlen; lia|].
+    rewrite app_nth2 by lia. rewrite Lp, Nat.sub_diag. cbn [nth bubble].
+    destruct (Nat.leb_spec 1 j0); [|lia]. destruct (Nat.ltb_spec j0 (size - 1)); [|lia]. cbn [andb].
+    destruct (Nat.eqb_spec a mp) as [->|Ne].
+    + rewrite (app_nth2 pre) by lia. replace (j0 + 1 - length pre) with 1 by lia. cbn [nth].
+      rewrite (set_nth_app_mid pre _ _ _ j0 Lp).
+      change (pre ++ b :: b :: r') with (pre ++ [b] ++ b :: r'). rewrite app_assoc.
+      rewrite (set_nth_app_mid (pre ++ [b])) by (rewrite app_length; cbn; lia).
+      rewrite (IH (S j0) (pre ++ [b]) mp r'); [now rewrite <- app_assoc|rewrite app_length; cbn; lia|lia|lia|rewrite app_length; cbn in *; lia].
+    + change (pre ++ a :: b :: r') with (pre ++ [a] ++ b :: r'). rewrite app_assoc.
+      rewrite (IH (S j0) (pre ++ [a]) b r'); [now rewrite <- app_assoc|rewrite app_length; cbn; lia|lia|lia|rewrite app_length; cbn in *; lia].
+Qed.
+
+Lemma row_lift i (RS : nat -> list nat -> list nat) (JS : nat -> list (list nat) -> list (list nat)) js :
+  (forall j SI, i < length SI -> JS j SI = set_nth SI i (RS j (nth i SI []))) ->
+  forall SI, i < length SI -> for_ js JS SI = set_nth SI i (for_ js RS (nth i SI [])).
+Proof.
+  intro H. induction js as [|j js IH]; intros SI Hi.
+  - cbn. symmetry. apply set_nth_nth_id. exact Hi.
+  - unfold for_ in *. cbn [fold_left]. rewrite H by exact Hi. rewrite IH by (now rewrite set_nth_length).
+    rewrite nth_set_nth_same by exact Hi. apply set_nth_set_nth.
+Qed.
+
+Definition bub_step (mp : nat) (j : nat) (row : list nat) : list nat :=
+  if Nat.eqb (nth j row 0) mp then set_nth (set_nth row j (nth (j + 1) row 0)) (j + 1) mp else row.
+
+Lemma bubble_row_loop mp sz (row : list nat) N : length row = N -> sz <= N ->
+  for_ (seq 1 (sz - 1 - 1)) (bub_step mp) row = bubble_row mp sz row.
+Proof.
+  intros L Hs. destruct row as [|a0 [|b r']].
+  - cbn in L. subst N. replace (sz - 1 - 1) with 0 by lia. reflexivity.
+  - cbn in L. subst N. replace (sz - 1 - 1) with 0 by lia. reflexivity.
+  - change (a0 :: b :: r') with ([a0] ++ b :: r').
+    rewrite (bubble_loop mp sz (bub_step mp)) with (j0 := 1); [reflexivity|intros; reflexivity|reflexivity|lia|lia|cbn in *; lia].
+Qed.
+
+(* for i in range(N): <bubble min_pos one position towards the end of row i> *)
+Lemma bubble_rows N mp sz (SI : list (list nat)) (IS : nat -> list (list nat) -> list (list nat)) :
+  mat N SI -> sz <= N ->
+  (forall i SI', i < N -> length SI' = N ->
+     IS i SI' = set_nth SI' i (for_ (seq 1 (sz - 1 - 1)) (bub_step mp) (nth i SI' []))) ->
+  for_ (seq 0 N) IS SI = tab N (fun i => bubble_row mp sz (nth i SI [])).
+Proof.
+  intros [LS RS] Hs HI.
+  rewrite (for_ext_inv (fun f => length f = N) _ _ (fun i f => set_nth f i ((fun i row => for_ (seq 1 (sz - 1 - 1)) (bub_step mp) row) i (nth i f [])))).
+  - rewrite (for_each_entry [] (fun i row => for_ (seq 1 (sz - 1 - 1)) (bub_step mp) row) N SI LS).
+    unfold tab. apply map_ext_in. intros i Hi. apply in_seq in Hi. apply (bubble_row_loop mp sz _ N); [apply RS; lia|exact Hs].
+  - exact LS.
+  - intros i f Hi Lf. apply in_seq in Hi. split; [apply HI; [lia|exact Lf]|now rewrite set_nth_length].
+Qed.
+
+Lemma inf_loop_F N (D : list (list T)) mp (inf : T) (F : nat -> list (list T) -> list (list T)) :
+  (forall i D, F i D = set2 (set2 D i mp inf) mp i inf) -> mat N D -> mp < N ->
+  for_ (seq 0 N) F D = tab N (fun i => tab N (fun x => if Nat.eqb i mp || Nat.eqb x mp then inf else nth x (nth i D []) zero)).
+Proof. intros HF M H. rewrite (for_ext _ F (fun i D => set2 (set2 D i mp inf) mp i inf)) by (intros; apply HF). now apply inf_loop. Qed.
+
+Lemma for_pair_split' {A S1 S2} (xs : list A) (F : A -> S1 * S2 -> S1 * S2) (f : A -> S1 -> S1) (g : A -> S2 -> S2) s1 s2 :
+  (forall x a b, F x (a, b) = (f x a, g x b)) -> for_ xs F (s1, s2) = (for_ xs f s1, for_ xs g s2).
+Proof. intro H. revert s1 s2. induction xs as [|x xs IH]; intros s1 s2; [reflexivity|]. unfold for_ in *. cbn [fold_left]. rewrite H. apply IH. Qed.
+
+Lemma find_min_lt (D : list (list T)) SI N sz : 1 <= N -> find_min Op D SI N sz < N.
+Proof.
+  intro HN. unfold find_min.
+  assert (G : forall xs mp, mp < N -> (forall x, In x xs -> x < N) ->
+            fold_left (fun min_pos i => if row_less Op (seq 1 (sz - 1)) (fun j => get2 Op D i (nth j (nth i SI []) 0))
+                                              (fun j => get2 Op D min_pos (nth j (nth min_pos SI []) 0)) then i else min_pos) xs mp < N).
+  { induction xs as [|x xs IH]; intros mp Hm Hx; [exact Hm|]. cbn [fold_left]. apply IH.
+    - destruct (row_less Op _ _ _); [apply Hx; now left|exact Hm].
+    - intros y Hy. apply Hx. now right. }
+  apply G; [lia|]. intros x Hx. apply in_seq in Hx. lia.
+Qed.
+
+Definition ts_embed (s : tstate (T:=T)) : list (list T) * list (list nat) * Z * list nat :=
+  (ts_D s, ts_SI s, Z.of_nat (ts_size s), ts_rem s).
+Definition ts_inv (N : nat) (s : tstate (T:=T)) : Prop := mat N (ts_D s) /\ mat N (ts_SI s) /\ ts_size s <= N.
+
+Lemma trunc_step_inv N s : 1 <= N -> ts_inv N s -> ts_inv N (trunc_step Op N s).
+Proof.
+  intros HN [MD [[LS RS] Hs]]. unfold trunc_step, ts_inv. cbn [ts_D ts_SI ts_size]. split; [|split; [|lia]].
+  - split; [apply tab_length|]. intros i Hi. rewrite nth_tab by exact Hi. apply tab_length.
+  - split; [apply tab_length|]. intros i Hi. rewrite nth_tab by exact Hi.
+    specialize (RS i Hi). destruct (nth i (ts_SI s) []) as [|a r]; [cbn in RS; lia|].
+    cbn [bubble_row]. rewrite bubble_length. exact RS.
+Qed.
+
+(* while size > k: <one truncation step>   = trunc_loop (size - k) of the hand model; generic in guard and body *)
+Lemma trunc_while N k (C : list (list T) * list (list nat) * Z * list nat -> bool)
+      (BODY : list (list T) * list (list nat) * Z * list nat -> list (list T) * list (list nat) * Z * list nat) :
+  1 <= N ->
+  (forall D SI size rem, C (D, SI, size, rem) = (Z.of_nat k <? size)%Z) ->
+  (forall s, ts_inv N s -> 1 <= ts_size s -> BODY (ts_embed s) = ts_embed (trunc_step Op N s)) ->
+  forall n fuel s, ts_inv N s -> ts_size s = k + n -> n <= fuel ->
+  while_ fuel C BODY (ts_embed s) = ts_embed (trunc_loop Op n N s).
+Proof.
+  intros HN HC HB. induction n as [|n IH]; intros fuel s Hi Hs Hf.
+  - cbn [trunc_loop]. destruct fuel as [|f]; [reflexivity|]. cbn [while_]. unfold ts_embed at 1. rewrite HC.
+    destruct (Z.ltb_spec (Z.of_nat k) (Z.of_nat (ts_size s))); [lia|reflexivity].
+  - destruct fuel as [|f]; [lia|]. cbn [while_ trunc_loop]. unfold ts_embed at 1. rewrite HC.
+    destruct (Z.ltb_spec (Z.of_nat k) (Z.of_nat (ts_size s))); [|lia].
+    change (ts_D s, ts_SI s, Z.of_nat (ts_size s), ts_rem s) with (ts_embed s). rewrite HB; [|exact Hi|lia].
+    apply IH; [now apply trunc_step_inv|unfold trunc_step; cbn [ts_size]; lia|lia].
+Qed.
+
+Lemma sorted_row_len (row : list T) N : 1 <= N -> length (sorted_row Op row N) = N.
+Proof.
+  intro HN. unfold sorted_row. rewrite rev_length.
+  assert (G : forall xs rl, length (fold_left (fun rl j => ins_rev Op row j rl) xs rl) = length rl + length xs).
+  { induction xs as [|x xs IH]; intro rl; cbn [fold_left length]; [lia|]. rewrite IH, ins_rev_len. lia. }
+  rewrite G, seq_length. cbn. lia.
+Qed.
+
+Theorem gen_selSPEA2_trunc_eq (inds : list (list T * list T)) k L chosen :
+  (forall ind, In ind inds -> length (fst ind) = L) -> (forall c, In c chosen -> c < length inds) -> k < length chosen ->
   gen_selSPEA2_trunc Op inds k L chosen = trunc_branch Op (map fst inds) k chosen.
-Proof. unfold gen_selSPEA2_trunc. reflexivity. Qed.
+Proof.
+  intros HL Hc Hk.
+  first [ solve [unfold gen_selSPEA2_trunc; reflexivity] | idtac "gen_selSPEA2_trunc: regenerated";
+  unfold gen_selSPEA2_trunc, trunc_branch, trunc_init; cbv zeta;
+  set (N := length chosen) in *;
+  assert (HN1 : 1 <= N) by lia;
+  assert (Hlen : forall p, p < N -> length (fst (nth (nth p chosen 0) inds (@nil T, @nil T))) = L)
+    by (intros p Hp; apply HL, nth_In, Hc, nth_In; exact Hp);
+  (* the distance matrix *)
+  match goal with |- context [for_ (seq 0 N) ?F (map (fun _ => repeat zero N) (seq 0 N))] =>
+    assert (P1 : for_ (seq 0 N) F (map (fun _ => repeat zero N) (seq 0 N)) = dist_matrix Op (map fst inds) chosen N);
+    [ evar (g : nat -> nat -> T); evar (c : T);
+      destruct (sym_matrix_loop_F N g c (map (fun _ => repeat zero N) (seq 0 N)) F) as [MG HG];
+      [ intros i D; cbv zeta; unfold set2, g, c; reflexivity
+      | split; [now rewrite map_length, seq_length|]; intros i Hi; rewrite map_const_seq;
+        rewrite (nth_indep _ [] (repeat zero N)) by (rewrite repeat_length; lia); rewrite nth_repeat; apply repeat_length
+      | intros p q Hp Hq; rewrite map_const_seq;
+        rewrite (nth_indep _ [] (repeat zero N)) by (rewrite repeat_length; lia); rewrite nth_repeat; apply nth_repeat
+      | apply (mat_ext N _ _ zero MG);
+        [ unfold dist_matrix; split; [apply tab_length|]; intros p Hp; rewrite nth_tab by exact Hp; apply tab_length
+        | intros p q Hp Hq; rewrite HG by assumption; unfold dist_matrix; rewrite nth_tab by exact Hp; rewrite nth_tab by exact Hq;
+          destruct (Nat.eqb p q); [reflexivity|]; rewrite !nth_map_fst;
+          destruct (Nat.ltb p q); unfold g; apply sqdist_loop; try (apply Hlen; assumption); intros; reflexivity ] ]
+    | rewrite P1; clear P1 ] end;
+  set (DM := dist_matrix Op (map fst inds) chosen N);
+  (* the sorted index rows *)
+  match goal with |- context [for_ (seq 0 N) ?F (map (fun _ => repeat 0 N) (seq 0 N))] =>
+    assert (P2 : for_ (seq 0 N) F (map (fun _ => repeat 0 N) (seq 0 N)) = tab N (fun i => sorted_row Op (nth i DM []) N));
+    [ apply sorted_rows_loop; intros i SI Hi LS H0; apply sorted_row_loop; [lia|lia| |exact H0];
+      intros j rl Hj Lr; cbv beta zeta;
+      apply ins_step; [rewrite LS; exact Hi|intros; reflexivity|intros; reflexivity|exact Lr|lia|lia]
+    | rewrite P2; clear P2 ] end;
+  (* the truncation loop *)
+  set (s0 := mkts DM (tab N (fun i => sorted_row Op (nth i DM []) N)) N []);
+  match goal with |- context [while_ (S N) ?C ?B (?D0, ?SI0, Z.of_nat N, ?r0)] =>
+    assert (P3 : while_ (S N) C B (D0, SI0, Z.of_nat N, r0) = ts_embed (trunc_loop Op (N - k) N s0));
+    [ change (DM, tab N (fun i => sorted_row Op (nth i DM []) N), Z.of_nat N, @nil nat) with (ts_embed s0);
+      apply (trunc_while N k); [exact HN1|intros; reflexivity| | |cbn; lia|lia];
+      [ intros [D SI sz rem] [MD [MS Hs]] H1; cbn [ts_D ts_SI ts_size ts_rem] in *;
+        unfold ts_embed, trunc_step; cbn [ts_D ts_SI ts_size ts_rem]; cbv beta iota zeta;
+        rewrite ?Nat2Z.id; replace (Z.to_nat (Z.of_nat sz - 1)) with (sz - 1) by lia;
+        match goal with |- context [for_ (seq 1 (N - 1)) ?F1 0] =>
+          assert (FM : for_ (seq 1 (N - 1)) F1 0 = find_min Op D SI N sz);
+          [ unfold find_min;
+            change (fold_left ?f (seq 1 (N - 1)) 0) with (for_ (seq 1 (N - 1)) (fun i mp => f mp i) 0);
+            apply for_ext; intros i mp _; cbv beta;
+            apply (row_less_brk (seq 1 (sz - 1)) (fun j => get2 Op D i (nth j (nth i SI []) 0))
+                                (fun mp' j => get2 Op D mp' (nth j (nth mp' SI []) 0)) i mp);
+            intros; reflexivity
+          | rewrite FM; clear FM ] end;
+        set (mp := find_min Op D SI N sz);
+        assert (Hmp : mp < N) by (apply find_min_lt; exact HN1);
+        evar (f : nat -> list (list T) -> list (list T)); evar (g : nat -> list (list nat) -> list (list nat));
+        match goal with |- context [for_ (seq 0 N) ?F2 (D, SI)] => rewrite (for_pair_split' (seq 0 N) F2 f g D SI) end;
+          [|intros x a b; unfold f, g; reflexivity];
+        unfold f, g; clear f g; cbv beta iota;
+        rewrite (inf_loop_F N D mp (n_inf Op)); [|intros; reflexivity|exact MD|exact Hmp];
+        rewrite (bubble_rows N mp sz SI); [|exact MS|exact Hs|];
+        [ f_equal; f_equal; lia
+        | intros i SI' Hi LS'; apply (row_lift i (bub_step mp)); [|rewrite LS'; exact Hi];
+          intros j S0 Hi0; unfold bub_step; destruct (Nat.eqb (nth j (nth i S0 []) 0) mp);
+          [ rewrite nth_set_nth_same by exact Hi0; apply set_nth_set_nth
+          | symmetry; apply set_nth_nth_id; exact Hi0 ] ]
+      | unfold ts_inv, s0; cbn [ts_D ts_SI ts_size]; split; [|split; [|lia]];
+        [ unfold DM, dist_matrix; split; [apply tab_length|]; intros i Hi; rewrite nth_tab by exact Hi; apply tab_length
+        | split; [apply tab_length|]; intros i Hi; rewrite nth_tab by exact Hi; apply sorted_row_len; exact HN1 ] ]
+    | rewrite P3; clear P3 ] end;
+  unfold ts_embed; cbv beta iota; reflexivity ].
+Qed.
 
 Ltac dd := (* the dominance tests of one pair *)
   repeat match goal with |- context [dominates Op ?a ?b] => destruct (dominates Op a b) end.
@@ -286,7 +723,16 @@ Ltac spea2_main inds k Hsame :=
     | let ind := fresh "ind" in let Hin := fresh "Hin" in
       intros ind Hin; apply Hsame; [exact Hin|apply nth_In; destruct inds; [contradiction|cbn; lia]]
     | assumption ]
-  | rewrite ?gen_selSPEA2_trunc_eq; reflexivity ].
+  | destruct (Nat.ltb_spec k (length (nd_indices (raw_fits S_ D))));
+    [ rewrite gen_selSPEA2_trunc_eq;
+      [ reflexivity
+      | let ind := fresh "ind" in let Hin := fresh "Hin" in
+        intros ind Hin; apply Hsame; [exact Hin|apply nth_In; destruct inds; [contradiction|cbn; lia]]
+      | let c := fresh "c" in let Hc := fresh "Hc" in
+        intros c Hc; unfold nd_indices in Hc; apply filter_In in Hc; destruct Hc as [Hc _]; apply in_seq in Hc;
+        unfold raw_fits in Hc; rewrite map_length, LD in Hc; unfold N in Hc; lia
+      | assumption ]
+    | reflexivity ] ].
 
 (* all individuals have the same number of fitness values (what `L = len(individuals[0].fitness.values)` stands for) *)
 Definition values_same_length (inds : list (list T * list T)) : Prop :=
@@ -297,7 +743,7 @@ Theorem gen_selSPEA2_eq (inds : list (list T * list T)) (k : nat) (ds : list Z) 
   gen_selSPEA2 Op inds k ds = spea2 Op (map fst inds) (map snd inds) k ds.
 Proof.
   intro Hsame.
-  first [ solve [unfold gen_selSPEA2, gen_selSPEA2_fill; reflexivity]
+  first [ solve [unfold gen_selSPEA2, gen_selSPEA2_fill, gen_selSPEA2_trunc; reflexivity]
         | idtac "gen_selSPEA2: regenerated"; spea2_main inds k Hsame ].
 Qed.
 
